@@ -38,6 +38,7 @@ import (
 	kem "github.com/flant/shell-operator/pkg/kube_events_manager"
 	kemtypes "github.com/flant/shell-operator/pkg/kube_events_manager/types"
 	metricstorage "github.com/flant/shell-operator/pkg/metric_storage"
+	"github.com/itchyny/gojq"
 )
 
 func init() { suites["c08"] = runC08 }
@@ -311,6 +312,23 @@ type c08Spec struct {
 	b    c08Binding
 	f    *jqF
 	keep bool
+	txt  string // the jq program as the hook writes it (layout: blanks, line breaks, comments); "" = f.text()
+}
+
+// jqText: the text of the binding's jqFilter key ("" = no filter).
+func (sp c08Spec) jqText() string {
+	switch {
+	case sp.f == nil:
+		return ""
+	case sp.txt != "":
+		return sp.txt
+	}
+	return sp.f.text()
+}
+
+// c08Token makes a text one protocol token (for the replay; the model reads the `ast=` argument).
+func c08Token(s string) string {
+	return strings.NewReplacer(" ", "\\u0020", "\n", "\\n", "\t", "\\t").Replace(s)
 }
 
 // c08LoadHook writes ONE hook configuration with all the bindings of the case (each on ConfigMaps of
@@ -328,10 +346,7 @@ func c08LoadHook(v0 bool, specs []c08Spec, asYAML bool, ns string) ([]*kem.Monit
 	}
 	var binds []any
 	for i, sp := range specs {
-		jqText := ""
-		if sp.f != nil {
-			jqText = sp.f.text()
-		}
+		jqText := sp.jqText()
 		name := "b"
 		if len(specs) > 1 {
 			name = fmt.Sprintf("b%d", i)
@@ -403,7 +418,7 @@ func c08LoadHook(v0 bool, specs []c08Spec, asYAML bool, ns string) ([]*kem.Monit
 
 // c08Setup: a hook with one v1 binding.
 func c08Setup(c *Case, b c08Binding, f *jqF, keep bool, initial []map[string]any) *c08Env {
-	return c08SetupHook(c, false, []c08Spec{{b, f, keep}}, b.asYAML, initial)
+	return c08SetupHook(c, false, []c08Spec{{b, f, keep, ""}}, b.asYAML, initial)
 }
 
 // c08SetupHook writes the cfg line of every binding, loads the hook through the real hook-config
@@ -426,8 +441,8 @@ func c08SetupHook(c *Case, v0 bool, specs []c08Spec, asYAML bool, initial []map[
 		e.bind()
 		jqText, ast := "-", "-"
 		if sp.f != nil {
-			jqText, ast = sp.f.text(), g4CanonJSON(sp.f.ast())
-			e.jq = jqText
+			jqText, ast = c08Token(sp.jqText()), g4CanonJSON(sp.f.ast())
+			e.jq = sp.jqText()
 		}
 		keep := sp.keep || v0 // version 0 has no keepFullObjectsInMemory option
 		kp := 0
@@ -685,13 +700,21 @@ func g4SubsetTypes(mask int) []kemtypes.WatchEventType {
 
 // the mutable leaves of C08's objects: those of g4ObjLeaves, an annotation and the managedFields list
 var c08ObjLeaves = append(append([][]string{}, g4ObjLeaves...),
-	[]string{"metadata", "annotations", "n"}, []string{"metadata", "managedFields"})
+	[]string{"metadata", "annotations", "n"}, []string{"metadata", "managedFields"},
+	// two keys that differ only in the length of a run of blanks (ConfigMap data keys are free text)
+	[]string{"data", "k k"}, []string{"data", "k  k"})
 
 // filter paths: those of g4FilterPaths and the metadata a hook may project (or that the operator
 // might be tempted to strip): the whole metadata, the managedFields list, the annotations
 var c08FilterPaths = append(append([][]string{}, g4FilterPaths...),
 	[]string{"metadata"}, []string{"metadata", "managedFields"}, []string{"metadata", "annotations"},
-	[]string{"metadata", "annotations", "n"}, []string{"metadata", "generation"})
+	[]string{"metadata", "annotations", "n"}, []string{"metadata", "generation"},
+	[]string{"data", "k k"}, []string{"data", "k  k"})
+
+// c08BlankPaths: a path list in which every second entry has a key with blanks (for hooks whose
+// bindings carry near-identical filters).
+var c08BlankPaths = [][]string{{"data", "k k"}, {"spec", "replicas"}, {"data", "k  k"}, {"spec", "a"}, {"data", "k k"}, {"data"},
+	{"data", "k  k"}, {"status", "x"}, {"data", "k k"}, {"metadata", "labels", "l"}, {"data", "k  k"}, {"spec", "b", "c"}}
 
 // c08GenManagedFields: what the api-server records for every field manager of an object.
 func c08GenManagedFields(rng *Rng) []any {
@@ -734,6 +757,13 @@ func c08GenObject(rng *Rng, ns, name string) map[string]any {
 	}
 	if rng.Chance(12) {
 		md["ownerReferences"] = []any{map[string]any{"apiVersion": "v1", "kind": "ConfigMap", "name": "owner", "uid": "u-1"}}
+	}
+	for _, l := range [][]string{{"data", "k k"}, {"data", "k  k"}} {
+		if rng.Chance(45) {
+			if _, isMap := o["data"].(map[string]any); isMap || o["data"] == nil {
+				g4SetPath(o, l, g4GenLeaf(rng))
+			}
+		}
 	}
 	return o
 }
@@ -1161,9 +1191,9 @@ func runC08(r *Run) {
 				return c08Binding{exec: &exec}
 			}
 			specs := []c08Spec{
-				{mk(g4AllTypes, []string{"add", "update", "delete"}), nil, true},
-				{mk([]kemtypes.WatchEventType{kemtypes.WatchEventModified}, []string{"update"}), g4Path("metadata"), true},
-				{mk([]kemtypes.WatchEventType{kemtypes.WatchEventAdded, kemtypes.WatchEventDeleted}, []string{"add", "delete"}), g4Path("spec"), true},
+				{mk(g4AllTypes, []string{"add", "update", "delete"}), nil, true, ""},
+				{mk([]kemtypes.WatchEventType{kemtypes.WatchEventModified}, []string{"update"}), g4Path("metadata"), true, ""},
+				{mk([]kemtypes.WatchEventType{kemtypes.WatchEventAdded, kemtypes.WatchEventDeleted}, []string{"add", "delete"}), g4Path("spec"), true, ""},
 			}
 			e := c08SetupHook(c, ver0, specs, i == 0, nil)
 			o1 := c08Obj(ns, "o1", 1, "x", 0)
@@ -1200,7 +1230,7 @@ func runC08(r *Run) {
 			}
 			c.Nontrivial = true
 			ns := fmt.Sprintf("c08-%d", c.Idx)
-			e := c08SetupHook(c, ver0, []c08Spec{{b, g4Path("spec", "replicas"), true}}, false,
+			e := c08SetupHook(c, ver0, []c08Spec{{b, g4Path("spec", "replicas"), true, ""}}, false,
 				[]map[string]any{c08Obj(ns, "o1", 1, "x", 0), c08Obj(ns, "o3", 3, "z", 0)})
 			o1 := g4DeepCopyJSON(e.states["o1"])
 			g4SetPath(o1, []string{"spec", "replicas"}, int64(2))
@@ -1237,7 +1267,7 @@ func runC08(r *Run) {
 			if i%3 != 2 {
 				f = g4Path("spec")
 			}
-			e := c08SetupHook(c, i%4 == 3, []c08Spec{{b, f, true}}, b.asYAML, []map[string]any{c08Obj(ns, "o1", 1, "x", 0)})
+			e := c08SetupHook(c, i%4 == 3, []c08Spec{{b, f, true, ""}}, b.asYAML, []map[string]any{c08Obj(ns, "o1", 1, "x", 0)})
 			if i%4 == 3 {
 				c.Desc += " — legacy hook format"
 			}
@@ -1258,6 +1288,51 @@ func runC08(r *Run) {
 		})
 	}
 
+	// ---- corpus: two bindings of one hook whose programs differ only in the number of blanks inside a
+	// quoted key / a string literal: two different programs, each binding is judged by its own
+	for i := 0; i < 2; i++ {
+		i := i
+		r.One(27+i, func(c *Case, _ *Rng) {
+			ns := fmt.Sprintf("c08-%d", c.Idx)
+			var specs []c08Spec
+			if i == 0 {
+				c.Desc = "corpus: bindings with jqFilter .data[\"k k\"] and .data[\"k  k\"] (one blank / two blanks in the key): a change of data.'k k' triggers the first only, a change of data.'k  k' the second only"
+				specs = []c08Spec{{b: c08Exec(g4AllTypes), f: g4Path("data", "k k"), keep: true}, {b: c08Exec(g4AllTypes), f: g4Path("data", "k  k"), keep: true}}
+			} else {
+				c.Desc = "corpus: bindings with jqFilter {m:\"d e\",v:.spec.replicas} and {m:\"d  e\",v:.data[\"k  k\"]} written over several lines with a comment: each event and snapshot carries the binding's own filter result"
+				specs = []c08Spec{
+					{b: c08Exec(g4AllTypes), f: g4ObjF(g4Fld("m", g4Lit("d e")), g4Fld("v", g4Path("spec", "replicas"))), keep: true,
+						txt: "{m:(\"d e\"),\n v:(.spec.replicas)} # d  e\n"},
+					{b: c08Exec(g4AllTypes), f: g4ObjF(g4Fld("m", g4Lit("d  e")), g4Fld("v", g4Path("data", "k  k"))), keep: true,
+						txt: "{m:(\"d  e\"),\n v:(.data[\"k  k\"])} # d e\n"},
+				}
+			}
+			c.Nontrivial = true
+			e := c08SetupHook(c, false, specs, i == 1, nil)
+			o1 := c08Obj(ns, "o1", 1, "x", 0)
+			g4SetPath(o1, []string{"data", "k k"}, int64(1))
+			g4SetPath(o1, []string{"data", "k  k"}, int64(1))
+			e.jqProbe(o1)
+			e.deliver(kemtypes.WatchEventAdded, "o1", o1)
+			o2 := g4DeepCopyJSON(o1)
+			g4SetPath(o2, []string{"data", "k k"}, int64(2))
+			e.jqProbe(o2)
+			e.deliver(kemtypes.WatchEventModified, "o1", o2)
+			o3 := g4DeepCopyJSON(o2)
+			g4SetPath(o3, []string{"data", "k  k"}, int64(3))
+			e.jqProbe(o3)
+			e.deliver(kemtypes.WatchEventModified, "o1", o3)
+			e.deliver(kemtypes.WatchEventModified, "o1", o3)
+			c.Note("redeliver:resync")
+			o4 := g4DeepCopyJSON(o3)
+			g4SetPath(o4, []string{"spec", "replicas"}, int64(4))
+			e.jqProbe(o4)
+			e.deliver(kemtypes.WatchEventModified, "o1", o4)
+			e.deliver(kemtypes.WatchEventDeleted, "o1", o4)
+			c.Note("sibling-filter:blank-runs")
+		})
+	}
+
 	// ---- generated histories
 	n := r.N(3000, 50000)
 	r.Cases(100, n, 0, func(c *Case, rng *Rng) {
@@ -1268,19 +1343,12 @@ func runC08(r *Run) {
 			nb = rng.Range(2, 3)
 		}
 		v0 := rng.Chance(25)
-		var specs []c08Spec
-		for k := 0; k < nb; k++ {
-			sp := c08Spec{keep: rng.Chance(60)}
-			if rng.Chance(80) {
-				sp.f = g4GenProg(rng, 2, c08FilterPaths)
-			}
+		specs := c08GenSpecs(c, rng, nb, v0, 80, 60, func() c08Binding {
 			if v0 {
-				sp.b = c08Binding{v0: c08GenV0Events(rng)}
-			} else {
-				sp.b = c08GenBinding(rng)
+				return c08Binding{v0: c08GenV0Events(rng)}
 			}
-			specs = append(specs, sp)
-		}
+			return c08GenBinding(rng)
+		})
 		f := specs[0].f
 		names := []string{"o1", "o2", "o3"}[:rng.Range(1, 3)]
 		var initial []map[string]any
@@ -1325,7 +1393,7 @@ func runC08(r *Run) {
 		if rng.Bool() {
 			f = g4Path("spec", "replicas")
 		}
-		e := c08SetupHook(c, true, []c08Spec{{c08Binding{v0: evs(k % 8)}, f, true}, {c08Binding{v0: evs(k / 8)}, nil, true}}, rng.Bool(), nil)
+		e := c08SetupHook(c, true, []c08Spec{{c08Binding{v0: evs(k % 8)}, f, true, ""}, {c08Binding{v0: evs(k / 8)}, nil, true, ""}}, rng.Bool(), nil)
 		o1 := c08GenObject(rng, ns, "o1")
 		g4SetPath(o1, []string{"spec", "replicas"}, int64(1))
 		e.jqProbe(o1)
@@ -1426,6 +1494,275 @@ func runC08(r *Run) {
 	}
 }
 
+// ---- near-identical filters of sibling bindings; the layout of a jq program
+
+// c08CopyF: a deep copy of a filter AST.
+func c08CopyF(f *jqF) *jqF {
+	if f == nil {
+		return nil
+	}
+	g := &jqF{Kind: f.Kind, Path: append([]string{}, f.Path...), Lit: f.Lit, A: c08CopyF(f.A), B: c08CopyF(f.B)}
+	for _, fl := range f.Fields {
+		g.Fields = append(g.Fields, jqField{fl.Key, c08CopyF(fl.F)})
+	}
+	for _, it := range f.Items {
+		g.Items = append(g.Items, c08CopyF(it))
+	}
+	return g
+}
+
+// c08WalkStrings calls fn on every string the program's TEXT carries inside a jq string literal:
+// string literals and path keys; fn returns the replacement.
+func c08WalkStrings(f *jqF, fn func(s string, isKey bool) string) {
+	if f == nil {
+		return
+	}
+	for i, k := range f.Path {
+		f.Path[i] = fn(k, true)
+	}
+	if str, ok := f.Lit.(string); ok && f.Kind == "lit" {
+		f.Lit = fn(str, false)
+	}
+	for _, fl := range f.Fields {
+		c08WalkStrings(fl.F, fn)
+	}
+	for _, it := range f.Items {
+		c08WalkStrings(it, fn)
+	}
+	c08WalkStrings(f.A, fn)
+	c08WalkStrings(f.B, fn)
+}
+
+// c08BlankLits replaces the string literals of a program by strings with a run of blanks inside.
+func c08BlankLits(rng *Rng, f *jqF) {
+	c08WalkStrings(f, func(s string, isKey bool) string {
+		if isKey || !rng.Chance(70) {
+			return s
+		}
+		return PickOne(rng, []string{"d e", "d  e", "on off", "on  off"})
+	})
+}
+
+func c08HasBlank(f *jqF) bool {
+	has := false
+	c08WalkStrings(c08CopyF(f), func(s string, _ bool) string {
+		if strings.Contains(s, " ") {
+			has = true
+		}
+		return s
+	})
+	return has
+}
+
+// c08FlipRuns: another string that differs only in the LENGTH of its runs of blanks
+// ("k k" <-> "k  k", "on off" <-> "on  off").
+func c08FlipRuns(s string) string {
+	if strings.Contains(s, "  ") {
+		return strings.Join(strings.Fields(s), " ")
+	}
+	return strings.ReplaceAll(s, " ", "  ")
+}
+
+// c08Sibling: the filter of ANOTHER binding of the same hook, derived from f the way hook authors
+// derive one binding from another (copy, then a small edit): "blank-runs" = the same program text
+// up to the number of blanks inside some string literals / quoted keys (another program: it reads
+// another key / builds another value); "one-key" = one path key replaced; "same" = the same program
+// (only the layout will differ). The result is a fresh AST.
+func c08Sibling(rng *Rng, f *jqF) (*jqF, string) {
+	g := c08CopyF(f)
+	switch k := rng.Intn(100); {
+	case k < 60 && c08HasBlank(f):
+		n, flipped := 0, 0
+		c08WalkStrings(g, func(s string, _ bool) string {
+			if !strings.Contains(s, " ") {
+				return s
+			}
+			n++
+			if rng.Chance(60) {
+				flipped++
+				return c08FlipRuns(s)
+			}
+			return s
+		})
+		if flipped == 0 { // flip the first one
+			first := true
+			c08WalkStrings(g, func(s string, _ bool) string {
+				if first && strings.Contains(s, " ") {
+					first = false
+					return c08FlipRuns(s)
+				}
+				return s
+			})
+		}
+		return g, "blank-runs"
+	case k < 75:
+		done := false
+		c08WalkStrings(g, func(s string, isKey bool) string {
+			if done || !isKey || !rng.Chance(50) {
+				return s
+			}
+			done = true
+			return PickOne(rng, []string{"a", "replicas", "x", "k", "k k", "k  k"})
+		})
+		if done {
+			return g, "one-key"
+		}
+	case k < 88:
+		// the same text up to the letter case of one quoted key / string literal / key
+		done := false
+		c08WalkStrings(g, func(s string, _ bool) string {
+			if done || !rng.Chance(50) || strings.ToUpper(s) == s {
+				return s
+			}
+			done = true
+			return strings.ToUpper(s[:1]) + s[1:]
+		})
+		if done {
+			return g, "letter-case"
+		}
+	}
+	return g, "same"
+}
+
+// c08CommentEnd: for a first binding whose program has several outputs `(A),(B)...`: the first
+// binding writes `(A) # <note> <line break> ,(B)...` (the comment ends at the line break: the whole
+// program), the sibling writes the same characters with a blank in place of the line break — the
+// comment swallows the rest, the sibling's program is `A` alone. ok=false: not applicable.
+func c08CommentEnd(first *c08Spec) (c08Spec, bool) {
+	if first.f == nil || first.f.Kind != "comma" || len(first.f.Items) < 2 {
+		return c08Spec{}, false
+	}
+	a := "(" + first.f.Items[0].text() + ")"
+	var rest []string
+	for _, it := range first.f.Items[1:] {
+		rest = append(rest, "("+it.text()+")")
+	}
+	whole := a + " # and\n," + strings.Join(rest, ",")
+	cut := a + " # and ," + strings.Join(rest, ",")
+	qWhole, e1 := gojq.Parse(whole)
+	qFirst, e2 := gojq.Parse(first.f.text())
+	qCut, e3 := gojq.Parse(cut)
+	qA, e4 := gojq.Parse(a)
+	if e1 != nil || e2 != nil || e3 != nil || e4 != nil || qWhole.String() != qFirst.String() || qCut.String() != qA.String() {
+		return c08Spec{}, false
+	}
+	first.txt = whole
+	return c08Spec{f: c08CopyF(first.f.Items[0]), txt: cut}, true
+}
+
+// c08Layout lays a compact jq program out the way people write it in a YAML block scalar: blanks
+// and line breaks around `( ) , : // { } [ ]` (never inside a string literal), now and then a
+// `# comment` before a line break. The program stays the same; a layout gojq does not accept, or
+// reads as another program, is dropped (the compact text is used).
+func c08Layout(rng *Rng, compact string) string {
+	ws := func() string {
+		switch rng.Intn(10) {
+		case 0, 1, 2, 3:
+			return ""
+		case 4, 5:
+			return " "
+		case 6:
+			return "  "
+		case 7:
+			return "\n"
+		case 8:
+			return "\n  "
+		}
+		return PickOne(rng, []string{" # note\n", "  # d  e\n "})
+	}
+	var sb strings.Builder
+	inStr := false
+	for i := 0; i < len(compact); i++ {
+		ch := compact[i]
+		if inStr {
+			sb.WriteByte(ch)
+			if ch == '\\' && i+1 < len(compact) {
+				i++
+				sb.WriteByte(compact[i])
+			} else if ch == '"' {
+				inStr = false
+			}
+			continue
+		}
+		switch {
+		case ch == '"':
+			inStr = true
+			sb.WriteByte(ch)
+		case ch == '(' || ch == '{' || ch == ':':
+			sb.WriteByte(ch)
+			sb.WriteString(ws())
+		case ch == ')' || ch == '}' || ch == ']':
+			sb.WriteString(ws())
+			sb.WriteByte(ch)
+		case ch == ',':
+			sb.WriteString(ws())
+			sb.WriteByte(ch)
+			sb.WriteString(ws())
+		case ch == '/' && i+1 < len(compact) && compact[i+1] == '/':
+			sb.WriteString(ws() + "//" + ws())
+			i++
+		default:
+			sb.WriteByte(ch)
+		}
+	}
+	out := sb.String()
+	qa, errA := gojq.Parse(compact)
+	qb, errB := gojq.Parse(out)
+	if errA != nil || errB != nil || qa.String() != qb.String() {
+		return compact
+	}
+	return out
+}
+
+// c08GenSpecs: the bindings of a generated hook. Each binding has its own program (or none); in a
+// hook with several bindings, 35%: the later bindings carry SIBLINGS of the first binding's program
+// (c08Sibling) and the first program is made to contain quoted keys / string literals with blanks.
+// Half of the programs are laid out (c08Layout).
+func c08GenSpecs(c *Case, rng *Rng, nb int, v0 bool, filterPct int, keepPct int, gen func() c08Binding) []c08Spec {
+	var specs []c08Spec
+	siblings := nb > 1 && rng.Chance(35)
+	for k := 0; k < nb; k++ {
+		sp := c08Spec{keep: rng.Chance(keepPct)}
+		switch {
+		case siblings && k == 0:
+			sp.f = g4GenProg(rng, 2, c08BlankPaths)
+			c08BlankLits(rng, sp.f)
+			if !c08HasBlank(sp.f) {
+				extra := g4Path("data", PickOne(rng, []string{"k k", "k  k"}))
+				if sp.f.Kind == "comma" {
+					sp.f.Items[0] = g4ArrF(sp.f.Items[0], extra)
+				} else {
+					sp.f = g4ArrF(sp.f, extra)
+				}
+			}
+		case siblings && rng.Chance(25) && specs[0].f.Kind == "comma":
+			if ce, ok := c08CommentEnd(&specs[0]); ok {
+				sp.f, sp.txt = ce.f, ce.txt
+				c.Note("sibling-filter:comment-ends-at-line-break-or-not")
+				break
+			}
+			fallthrough
+		case siblings:
+			var how string
+			sp.f, how = c08Sibling(rng, specs[0].f)
+			c.Note("sibling-filter:" + how)
+		case rng.Chance(filterPct):
+			sp.f = g4GenProg(rng, 2, c08FilterPaths)
+			if rng.Chance(25) {
+				c08BlankLits(rng, sp.f)
+			}
+		}
+		if sp.f != nil && sp.txt == "" && rng.Chance(50) {
+			if sp.txt = c08Layout(rng, sp.f.text()); sp.txt != sp.f.text() {
+				c.Note("filter-layout:blanks-line-breaks-comments")
+			}
+		}
+		sp.b = gen()
+		specs = append(specs, sp)
+	}
+	return specs
+}
+
 // c08ClusterCase: the informers are registered with a real shared informer of the fake client; the
 // harness changes the objects in the cluster. A marker object ("zz", hidden from the observation) is
 // created/deleted after every change: the notifications of one handler are handled in order, so once
@@ -1438,17 +1775,13 @@ func runC08(r *Run) {
 // everything that happened since its own list reaches it in no other way.
 func c08ClusterCase(c *Case, rng *Rng) {
 	nb := 1
-	if rng.Chance(40) {
+	switch k := rng.Intn(100); {
+	case k < 40:
 		nb = 2
+	case k < 55:
+		nb = 3
 	}
-	var specs []c08Spec
-	for k := 0; k < nb; k++ {
-		sp := c08Spec{b: c08GenBinding(rng), keep: rng.Bool()}
-		if rng.Chance(85) {
-			sp.f = g4GenProg(rng, 2, c08FilterPaths)
-		}
-		specs = append(specs, sp)
-	}
+	specs := c08GenSpecs(c, rng, nb, false, 85, 50, func() c08Binding { return c08GenBinding(rng) })
 	f := specs[0].f
 	ns := fmt.Sprintf("c08-%d", c.Idx)
 	names := []string{"o1", "o2", "o3"}[:rng.Range(1, 3)]
@@ -1601,39 +1934,137 @@ func c08ClusterCase(c *Case, rng *Rng) {
 			changes++
 		}
 	}
-	ctx, cancel := context.WithCancel(context.Background())
-	defer cancel()
+	// every binding has a context of its own: cancelling it is what Monitor.Stop / the
+	// namespace-deleted callback do to an informer (start()'s goroutine then calls FactoryStore.Stop)
+	cancels := make([]context.CancelFunc, nb)
+	defer func() {
+		for _, cf := range cancels {
+			if cf != nil {
+				cf()
+			}
+		}
+	}()
 	var attached []*c08Env
+	shared := make([]interface{ IsStopped() bool }, nb) // the shared informer each binding hangs on
+	dead := map[int]bool{}                               // bindings whose shared informer was shut down under them
+	// live: the attached bindings whose shared informer runs (the ones a barrier can wait for)
+	live := func() []*c08Env {
+		var out []*c08Env
+		for _, pe := range attached {
+			if !dead[pe.k] {
+				out = append(out, pe)
+			}
+		}
+		return out
+	}
 	attach := func(pe *c08Env) bool {
-		if markerLive && !barrier(attached...) { // the marker must appear AFTER the replay
+		if markerLive && !barrier(live()...) { // the marker must appear AFTER the replay
 			c.Inconcl = "marker not seen before an attach"
 			return false
 		}
+		var ctx context.Context
+		ctx, cancels[pe.k] = context.WithCancel(context.Background())
 		pe.inf.Start(ctx)
+		if si := pe.inf.SharedInformer(); si != nil {
+			shared[pe.k] = si
+		}
 		if len(attached) == 0 {
 			time.Sleep(50 * time.Millisecond) // the fake watch starts after the list; changes in between would be lost
 		}
 		attached = append(attached, pe)
-		if !barrier(attached...) {
+		if !barrier(live()...) {
 			c.Inconcl = "marker not seen after start"
 			return false
 		}
 		replayed(pe)
 		return true
 	}
+	// served: what the operator's FactoryStore holds for every binding that is attached and has not
+	// been stopped — a stored factory whose context is alive and that carries the binding's handler.
+	// One protocol line (model: Snapshot.fsStart/fsStop of the bindings' shared factory index).
+	served := func(op string) {
+		var ks []string
+		for _, pe := range attached {
+			stored, cancelled, registered, _ := pe.inf.FactoryState()
+			if stored && !cancelled && registered {
+				ks = append(ks, fmt.Sprint(pe.k))
+			} else if !dead[pe.k] {
+				// the shared informer of this binding has been cancelled under it. Nothing that happens
+				// in the cluster from now on can reach its handler; to make that an observation and not
+				// a matter of timing, wait until client-go reports the informer stopped (its controller
+				// has returned: no later change is ever turned into a notification).
+				dead[pe.k] = true
+				deadline := time.Now().Add(20 * time.Second)
+				for shared[pe.k] != nil && !shared[pe.k].IsStopped() {
+					if !time.Now().Before(deadline) {
+						c.Inconcl = "cancelled shared informer did not stop in time"
+						return
+					}
+					time.Sleep(time.Millisecond)
+				}
+				time.Sleep(20 * time.Millisecond) // notifications already queued for the handler drain
+				c.Note("stop:shared-informer-cancelled-under-a-running-binding")
+			}
+		}
+		c.Op(op, "served="+joinStrs(ks))
+	}
+	// stopBinding: one attached binding is stopped (its context is cancelled) while the others go on.
+	nStops := 0
+	stopBinding := func() bool {
+		cand := live()
+		victim := cand[rng.Intn(len(cand))]
+		before := len(attached)
+		cancels[victim.k]()
+		deadline := time.Now().Add(20 * time.Second)
+		for {
+			if _, _, registered, _ := victim.inf.FactoryState(); !registered {
+				break
+			}
+			if !time.Now().Before(deadline) {
+				c.Inconcl = "FactoryStore.Stop did not run in time"
+				return false
+			}
+			time.Sleep(time.Millisecond)
+		}
+		var rest []*c08Env
+		for _, pe := range attached {
+			if pe != victim {
+				rest = append(rest, pe)
+			}
+		}
+		attached = rest
+		nStops++
+		c.Note(fmt.Sprintf("stop:sibling-binding-stopped/handlers-before:%d", before))
+		served(fmt.Sprintf("stop %d", victim.k))
+		return c.Inconcl == ""
+	}
 	if !attach(envs[0]) {
 		return
 	}
+	served("attach 0")
 	late := envs[1:]
 	steps := rng.Range(3, 8)
+	if nb > 1 {
+		steps = rng.Range(5, 9)
+	}
 	for i := 0; i < steps; i++ {
-		if len(late) > 0 && (i == steps-2 || rng.Chance(30)) {
-			// the second binding is attached to the running informer: its store is replayed
+		if len(late) > 0 && (i >= steps-4 || rng.Chance(35)) {
+			// the next binding is attached to the running informer: its store is replayed
 			if !attach(late[0]) {
+				return
+			}
+			served(fmt.Sprintf("attach %d", late[0].k))
+			if c.Inconcl != "" {
 				return
 			}
 			late = late[1:]
 			c.Note("attach:late-handler-on-running-informer")
+		} else if len(live()) >= 2 && nStops < nb-1 && (rng.Chance(30) || (len(late) == 0 && nStops == 0 && i >= steps-3)) {
+			// one of the bindings sharing the informer stops (its monitor is stopped, its namespace
+			// stopped matching ...), the others go on watching: the changes that follow must reach them
+			if !stopBinding() {
+				return
+			}
 		}
 		name := PickOne(rng, names)
 		// nothing is deleted while a binding that listed the object is not attached yet: it would
@@ -1643,7 +2074,7 @@ func c08ClusterCase(c *Case, rng *Rng) {
 			return
 		}
 		changes++
-		if !barrier(attached...) {
+		if !barrier(live()...) {
 			c.Inconcl = "marker not seen after a change"
 			return
 		}
